@@ -72,6 +72,9 @@ type Case struct {
 	Lay      Tool
 	Opt      Tool
 	OptR     Tool
+	// gcsizes{4,4} against the compiler for GOARCH=386, settled at compile time (386 binaries cannot be run here):
+	// "ok", "mismatch: <compiler message>" or "" when the 386 compilation was not attempted
+	Arch386 string
 }
 
 type unsafeOnly struct{}
@@ -93,6 +96,7 @@ func main() {
 	out := flag.String("out", "", "output JSON")
 	seed := flag.Uint64("seed", 1, "seed")
 	n := flag.Int("n", 150, "number of struct types run through the commands")
+	arch386 := flag.Bool("arch386", true, "check gcsizes{4,4} against the 386 compiler at compile time")
 	extra := flag.Int("extra", 0, "further struct types laid out by gcsizes and the compiler only")
 	bin := flag.String("bin", "", "directory holding structlayout and structlayout-optimize built from the working tree")
 	flag.Parse()
@@ -191,6 +195,53 @@ func main() {
 		}
 		for _, s := range szs {
 			cases[i].Gcsizes = append(cases[i].Gcsizes, Sz{Word: s.WordSize, MaxAlign: s.MaxAlign, Size: s.Sizeof(T), Align: s.Alignof(T), Offsets: s.Offsetsof(fields)})
+		}
+	}
+
+	// ---- (iii') GOARCH=386: array-length assertions with gcsizes{WordSize: 4, MaxAlign: 4}'s answers; the package
+	// compiles iff every one of them is what the 386 compiler computes
+	if *arch386 {
+		var a strings.Builder
+		a.WriteString("package a386\n\nimport (\n\t\"unsafe\"\n\n\t\"c19types/t\"\n)\n\nvar (\n")
+		line := 9
+		lineOf := map[int]int{}
+		for i, gt := range gtypes {
+			g := cases[i].Gcsizes[1]
+			emit := func(expr string, v int64) {
+				fmt.Fprintf(&a, "\t_ [%d]byte = [%s]byte{}\n", v, expr)
+				line++
+				lineOf[line] = i
+			}
+			emit(fmt.Sprintf("unsafe.Sizeof(t.T%d{})", i), g.Size)
+			emit(fmt.Sprintf("unsafe.Alignof(t.T%d{})", i), g.Align)
+			for k, fl := range gt.Fields {
+				emit(fmt.Sprintf("unsafe.Offsetof(t.T%d{}.%s)", i, fl.Name), g.Offsets[k])
+			}
+		}
+		a.WriteString(")\n")
+		hx.WriteFile(filepath.Join(mod, "a386", "a.go"), a.String())
+		c := exec.Command("go", "build", "-gcflags=-e", "./a386")
+		c.Dir, c.Env = mod, append(append([]string(nil), env...), "GOARCH=386")
+		b, err := c.CombinedOutput()
+		for i := range cases {
+			cases[i].Arch386 = "ok"
+		}
+		if err != nil {
+			matched := false
+			for _, l := range strings.Split(string(b), "\n") {
+				var ln, col int
+				if idx := strings.Index(l, "a.go:"); idx >= 0 {
+					if n, _ := fmt.Sscanf(l[idx:], "a.go:%d:%d:", &ln, &col); n >= 1 {
+						if ti, ok := lineOf[ln]; ok {
+							cases[ti].Arch386 = "mismatch: " + strings.TrimSpace(l[idx:])
+							matched = true
+						}
+					}
+				}
+			}
+			if !matched {
+				fatal("GOARCH=386 compilation failed for another reason:", err, string(b))
+			}
 		}
 	}
 
